@@ -155,3 +155,83 @@ end XPathV.Theorems.NonVacuity.C08
 section AxiomAudit
 open XPathV.Theorems.NonVacuity.C08
 end AxiomAudit
+
+/-! ## C08 over filtered counts and sums: `C08_main_filtered_counts` -/
+namespace XPathV.Theorems.NonVacuity.C08
+open XPathV XPathV.Model XPathV.Theorems.NonVacuity XPathV.PosSem
+open XPathV.PathSem XPathV.ArithSem XPathV.ArithSem2 XPathV.PredSem2
+
+attribute [local instance] toyAlg
+
+/-- `*[@x < @y]` (from `r`: only `b`, with `x="2" y="3"`) -/
+def pLt : Ast :=
+  .filter (.axis (chE "") .none) (.oper "<" (.axis (atA "x") .none) (.axis (atA "y") .none))
+
+theorem pLt_flatF2 : FlatF2 pLt :=
+  ⟨.filter _ _ (.axis _ _ .none (by decide))
+      (.cmpPath _ _ _ (by decide) (.axis _ _ .none (by decide)) (.axis _ _ .none (by decide))),
+    .filter _ _ (.axis _ _ (by decide) .none)⟩
+
+/-- `count(*[@x < @y]) * 2 + 1` -/
+def e3 : Ast := .oper "+" (.oper "*" (.call "count" "" (.acons pLt .anil)) (.num "2")) (.num "1")
+
+theorem e3_parsed : ParsesTo "count(*[@x < @y]) * 2 + 1" e3 := ApiSem.parsesTo_eq (by decide +kernel)
+
+/-- no oracle-side domain condition is needed: `e3` is in the document-independent `NumEC2` -/
+theorem e3_numEC2 : NumEC2 e3 :=
+  .arith "+" _ _ (by decide) (.arith "*" _ _ (by decide) (.count "" pLt pLt_flatF2) (.num _)) (.num _)
+
+theorem e3_built : ∃ o, build (fun _ => true) 100 true false e3 {} {} = .ok o :=
+  exists_ok (by decide +kernel)
+
+theorem e3_spec : Spec.eval (F := Int) d0 e3 ctx = .ok (.val (.num 3) none) := by decide +kernel
+
+/-- **`C08_main_filtered_counts`** at `count(*[@x < @y]) * 2 + 1`, context `⟨r, 2, 5⟩` of `d0`, every
+hypothesis discharged (`WF`, `nsIface`, `HashInj`, `validRef`, `NumEF2` with `FlatF2` inside,
+`build = .ok`): one child of `r` has `@x < @y`, both sides give `1 * 2 + 1 = 3` -/
+theorem C08_main_filtered_counts_instance :
+    ∃ (o : BOut), build (fun _ => true) 100 true false e3 {} {} = .ok o ∧
+    evalP (F := Int) d0 {} o.q (.node 1) = .ok (.num 3) := by
+  obtain ⟨o, hb⟩ := e3_built
+  obtain ⟨x, h1, h2⟩ := Theorems.C08.C08_main_filtered_counts (F := Int) wf_d0 {} rfl hashInj_d0
+    (fun _ => true) 100 (.node 1) (by decide) 2 5 (e3_numEC2.numEF2) {} {} o hb
+  rw [e3_spec] at h2; cases h2
+  exact ⟨o, hb, h1⟩
+
+/-- `*[@x < @y]/@y` (from `r`: the `y` attribute of `b`, value `3`) -/
+def pLtY : Ast := .axis (atA "y") pLt
+
+theorem pLtY_flatF2 : FlatF2 pLtY :=
+  ⟨.axis _ _ pLt_flatF2.1 (by decide), .axis _ _ (by decide) pLt_flatF2.2⟩
+
+/-- `sum(*[@x < @y]/@y) - count(*[@x < @y])` -/
+def e4 : Ast :=
+  .oper "-" (.call "sum" "" (.acons pLtY .anil)) (.call "count" "" (.acons pLt .anil))
+
+theorem e4_parsed : ParsesTo "sum(*[@x < @y]/@y) - count(*[@x < @y])" e4 :=
+  ApiSem.parsesTo_eq (by decide +kernel)
+
+/-- the oracle speaks for `sum(*[@x < @y]/@y)`: the one node is numeric -/
+theorem sumLt_spec : Spec.eval (F := Int) d0 (.call "sum" "" (.acons pLtY .anil)) ctx =
+    .ok (.val (.num 3) none) := by decide +kernel
+
+theorem e4_numEF2 : NumEF2 d0 ctx Int e4 :=
+  .arith "-" _ _ (by decide)
+    (.sum "" pLtY ⟨pLtY_flatF2, sumDom_of_eval d0 ctx "" pLtY 3 none sumLt_spec⟩)
+    (.count "" pLt pLt_flatF2)
+
+theorem e4_spec : Spec.eval (F := Int) d0 e4 ctx = .ok (.val (.num 2) none) := by decide +kernel
+
+/-- **`C08_main_filtered_counts`** with a filtered `sum` leaf (`FlatSum2` discharged): both sides
+give `3 - 1 = 2` -/
+theorem C08_main_filtered_sums_instance :
+    ∃ (o : BOut), build (fun _ => true) 100 true false e4 {} {} = .ok o ∧
+    evalP (F := Int) d0 {} o.q (.node 1) = .ok (.num 2) := by
+  obtain ⟨o, hb⟩ : ∃ o, build (fun _ => true) 100 true false e4 {} {} = .ok o :=
+    exists_ok (by decide +kernel)
+  obtain ⟨x, h1, h2⟩ := Theorems.C08.C08_main_filtered_counts (F := Int) wf_d0 {} rfl hashInj_d0
+    (fun _ => true) 100 (.node 1) (by decide) 2 5 e4_numEF2 {} {} o hb
+  rw [e4_spec] at h2; cases h2
+  exact ⟨o, hb, h1⟩
+
+end XPathV.Theorems.NonVacuity.C08
